@@ -124,7 +124,9 @@ func runCase(t rk.Failer, slot string, c *sem.Case, hostile bool, key string, la
 	if devnull != nil {
 		os.Stdout = devnull // printf() output
 	}
+	evid.Current(slot, mkReplay(c)) // a fatal error (stack overflow) kills the process: the driver attributes it to this case
 	io := sem.RunV1(c, 20000)
+	evid.ClearCurrent()
 	os.Stdout = old
 	if io.Crash != nil {
 		rk.Fail(t, slot, mkReplay(c), "Script.Run panicked: %s\n%s\nscript:\n%s", io.Crash.Value, firstLines(io.Crash.Stack, 18), c.Texts[c.Root])
@@ -336,7 +338,45 @@ func genProgram(t *rapid.T, fields map[string]any) ([]*gen.Node, *sgen.G) {
 		}
 		return gen.NIf([]*gen.Node{gen.NBool(true)}, [][]*gen.Node{{store, use}}, nil, false)
 	}
-	g.Calls = []func(*sgen.G, int) *gen.Node{builtin, builtin, builtin, voidUse, keyUse, indexUse, storeThenUse}
+	// selfContaining builds a list / map that contains itself and hands it to the constructs that walk a value
+	selfContaining := func(g *sgen.G, d int) *gen.Node {
+		g.Feat["self-containing-collection"] = true
+		var mk []*gen.Node
+		switch rapid.IntRange(0, 2).Draw(g.T, "cyckind") {
+		case 0:
+			mk = []*gen.Node{gen.NSet("cy", gen.NList(gen.NInt(1))), gen.NAssign("=", []*gen.Node{gen.NIndex(gen.NIdent("cy"), gen.NInt(0))}, []*gen.Node{gen.NIdent("cy")})}
+		case 1:
+			mk = []*gen.Node{gen.NSet("cy", gen.NMap(gen.NStr("k"), gen.NInt(1))), gen.NAssign("=", []*gen.Node{gen.NIndex(gen.NIdent("cy"), gen.NStr("self"))}, []*gen.Node{gen.NIdent("cy")})}
+		default:
+			mk = []*gen.Node{gen.NSet("cy", gen.NList(gen.NMap(gen.NStr("k"), gen.NInt(1)))), gen.NAssign("=", []*gen.Node{gen.NIndex(gen.NIdent("cy"), gen.NInt(0), gen.NStr("up"))}, []*gen.Node{gen.NIdent("cy")})}
+		}
+		cy := gen.NIdent("cy")
+		var use *gen.Node
+		switch rapid.IntRange(0, 9).Draw(g.T, "cycuse") {
+		case 0:
+			use = gen.NCall("strfmt", gen.NIdent("out"), gen.NStr("%v"), cy)
+		case 1:
+			use = gen.NCall("printf", gen.NStr("%v %d\n"), cy, cy.Clone())
+		case 2:
+			use = gen.NCall("add_key", gen.NIdent("out"), cy)
+		case 3:
+			use = gen.NSet("eq", gen.NBin("==", cy, cy.Clone()))
+		case 4:
+			use = gen.NSet("eq", gen.NBin("in", cy, gen.NList(cy.Clone())))
+		case 5:
+			use = gen.NCall("set_tag", gen.NIdent("out"), cy)
+		case 6:
+			use = gen.NSet("n", gen.NCall("len", cy))
+		case 7:
+			use = gen.NForIn("e", cy, []*gen.Node{gen.NSet("last", gen.NIdent("e"))})
+		case 8:
+			use = gen.NCall("strfmt", gen.NIdent("out"), gen.NStr("%s|%q|%x"), cy, cy.Clone(), cy.Clone())
+		default:
+			use = gen.NCall("cast", gen.NIdent("cy"), gen.NStr("str"))
+		}
+		return gen.NIf([]*gen.Node{gen.NBool(true)}, [][]*gen.Node{append(mk, use)}, nil, false)
+	}
+	g.Calls = []func(*sgen.G, int) *gen.Node{builtin, builtin, builtin, voidUse, keyUse, indexUse, storeThenUse, selfContaining}
 	prog := g.Program(rapid.IntRange(1, 8).Draw(t, "size"), rapid.IntRange(1, 3).Draw(t, "nest"))
 	return prog, g
 }
@@ -386,7 +426,7 @@ func TestFixedHostile(t *testing.T) {
 		"a = [1,2,3]\nb = a[2:1]", "inf2 = 1.0e308 * 10.0\nadd_key(k, [1, inf2])\nn = len(k)", "add_key(k, {\"a\": nan})\nx = k[0:1]", "l = [1,2,3]\nx = l[3]", "l = [1,2,3]\nl[3] = 1", "l = [1,2,3]\nx = l[-4]", "l = []\nx = l[0]", "l = [[1]]\nl[0][1] += 1", "m = {\"k\": [1]}\nx = m[\"k\"][1]", "x = \"abc\"[1:3:9223372036854775807]", ".[0]", "a = .[0] + 1", ".[0] = 1", "a.b", "a = a.b", "l = [1]\nx = l[-9223372036854775807 - 1]",
 		"rename(message, a)\nn = len(message)", "rename(a, message)\nuppercase(a)", "a = 9223372036854775807 + 1\nb = (-9223372036854775807 - 1) / (0 - 1)\nc = (-9223372036854775807 - 1) % (0 - 1)",
 		"x = [1,2][::-9223372036854775807 - 1]", "x = \"abc\"[-9223372036854775807 - 1:9223372036854775807:9223372036854775807]",
-		"for x in message { add_key(message, x) }", "m = {}\nm[\"a\"] = m\nadd_key(k, m)\nb = m == m", "l = [1]\nl[0] = l\nprobe(\"l\", l)\nn = len(l)",
+		"for x in message { add_key(message, x) }", "m = {}\nm[\"a\"] = m\nadd_key(k, m)\nb = m == m", "a = [1]\na[0] = a\nstrfmt(k, \"%v\", a)", "m = {}\nm[\"a\"] = m\nprintf(\"%v\", m)", "l = [1]\nl[0] = l\nprobe(\"l\", l)\nn = len(l)",
 		"cast(message, \"int\")\ncast(message, \"bool\")\ncast(message, \"float\")\nuppercase(message)", "set_tag(message)\nset_tag(message, \"x\")\nadd_key(message, 1.5)\ntrim(message)",
 		"strfmt(a, \"%d %s %v %[9]d %!\", 1.5, nil, [1])", "default_time(f1, \"+8\")\ndefault_time(message)", "datetime(f1, \"ms\", \"RFC3339\")\ndatetime(message, \"s\", \"ANSIC\")",
 		"grok(_, \"%{INT:f1:int} %{WORD:t1}\")\ngrok(f1, \"%{NUMBER:message:float}\", false)", "xml(message, \"//b/@id\", a.b)\nxml(f1, \"(\", x)", "a = -true\nb = +false\nadd_key(a)\nadd_key(b)",
